@@ -315,27 +315,29 @@ Definition node_view (f : flags) (nk : node_kind) (ct wr : string) (p : pinfo) (
 Definition strip_key (c : cfg) : cfg * option string :=
   match c with WithContextKey c' k => (c', Some k) | _ => (c, None) end.
 
-(* _pipeline_node_factory: (node class view, processor class view) *)
-Definition gen (t : tables) (c : cfg) : option (cview * cview) :=
-  let '(c0, key) := strip_key c in
-  match proc (tflags t) c0 with
+(* _pipeline_node_factory, after the processor class is known: dispatch, context_key policy, node class *)
+Definition node_of (t : tables) (p : pinfo) (key : option string) : option (cview * cview) :=
+  match find_kind (pk p) (dispatch t) with
   | None => None
-  | Some p =>
-      match find_kind (pk p) (dispatch t) with
+  | Some (nk, pol) =>
+      match find_nk nk (node_lits t) with
       | None => None
-      | Some (nk, pol) =>
-          match find_nk nk (node_lits t) with
-          | None => None
-          | Some (ct, wr) =>
-              match pol, key with
-              | KeyForbidden, Some _ => None
-              | KeyRequired, None => None
-              | KeyRequired, Some k =>
-                  if nonblank k then Some (node_view (tflags t) nk ct wr p k, proc_view p) else None
-              | _, _ => Some (node_view (tflags t) nk ct wr p "", proc_view p)
-              end
+      | Some (ct, wr) =>
+          match pol, key with
+          | KeyForbidden, Some _ => None
+          | KeyRequired, None => None
+          | KeyRequired, Some k =>
+              if nonblank k then Some (node_view (tflags t) nk ct wr p k, proc_view p) else None
+          | _, _ => Some (node_view (tflags t) nk ct wr p "", proc_view p)
           end
       end
+  end.
+
+(* (node class view, processor class view) of a configuration; None = the factories raise *)
+Definition gen (t : tables) (c : cfg) : option (cview * cview) :=
+  match proc (tflags t) (fst (strip_key c)) with
+  | None => None
+  | Some p => node_of t p (snd (strip_key c))
   end.
 
 (* the tables as documented; Properties/C16.v proves the generated ones equal to these *)
@@ -528,16 +530,17 @@ Fixpoint validp (c : cfg) : bool :=
   | Template out holes => valid_key out && negb (is_nil holes) && forallb valid_placeholder holes
   end.
 
-Definition valid (c : cfg) : bool :=
-  match c with
-  | WithContextKey c' k =>
-      validp c' && match ckind c' with
-                   | KDataOperation => false
-                   | KDataProbe => nonblank k
-                   | _ => true
-                   end
-  | _ => validp c && negb (kind_eqb (ckind c) KDataProbe)
+(* the node-level context_key policy: forbidden on operations, required (non-blank) on probes, ignored elsewhere *)
+Definition key_ok (k : kind) (key : option string) : bool :=
+  match k, key with
+  | KDataOperation, Some _ => false
+  | KDataProbe, None => false
+  | KDataProbe, Some s => nonblank s
+  | _, _ => true
   end.
+
+Definition valid (c : cfg) : bool :=
+  validp (fst (strip_key c)) && key_ok (ckind (fst (strip_key c))) (snd (strip_key c)).
 
 (* base components must themselves be well formed (their own contract) *)
 Fixpoint bases_ok (c : cfg) : bool :=
